@@ -434,9 +434,10 @@ def templates():
             other = (torch.from_numpy(p.rng.uniform(-1, 1, tuple(a.shape)).astype(np.float32)) * lim).to(a.dtype)
             return lambda: torch.where(cond, a, other)
         if c == 1:
-            other = p.sibling(a)
-            if not hasattr(other, "qtype"):  # a plain replacement must stay inside the quantized range
-                other = (other.float().tanh() * lim).to(a.dtype)
+            # a quantized (or plain) replacement whose values stay inside the quantized operand's range
+            vals = (torch.from_numpy(p.rng.uniform(-1, 1, tuple(a.shape)).astype(np.float32)) * lim).to(a.dtype)
+            qtn = ["qint8", "qfloat8_e4m3fn", "qfloat8_e5m2", None][p.rng.integers(4)]
+            other = vals if qtn is None else p.act(tuple(a.shape), qtn, x=vals)
             return lambda: torch.where(cond, a, other)
         if c == 2:
             other = p.randn(tuple(a.shape))
